@@ -56,6 +56,9 @@ enum Op {
     /// replace the expected distance through expected_dist_mut()
     SetLength(usize),
     ClearCache,
+    /// replace the path under test by a copy of another path: `clone_from` of an uncached / a cached source
+    /// (`bool`), or assignment of `clone()`
+    CopyFrom(usize, bool, bool),
 }
 
 struct World {
@@ -127,6 +130,20 @@ impl World {
                 *self.path.expected_dist_mut() = self.length;
             }
             Op::ClearCache => self.path.clear_curve(),
+            Op::CopyFrom(i, cached, via_clone_from) => {
+                let l = LENGTHS[(i + 2) % 7];
+                let mut src = SliderPath::new(self.mode, self.pool[i].clone(), l);
+                if cached {
+                    let _ = src.curve().dist();
+                }
+                if via_clone_from {
+                    self.path.clone_from(&src);
+                } else {
+                    self.path = src.clone();
+                }
+                self.points = self.pool[i].clone();
+                self.length = l;
+            }
         }
         if self.path.control_points() != self.points.as_slice() || self.path.expected_dist().map(f64::to_bits) != self.length.map(f64::to_bits) {
             return Err("accessors do not show the values that were set".into());
@@ -146,6 +163,7 @@ fn all_ops(npool: usize) -> Vec<Op> {
         v.push(Op::SetLength(l));
     }
     v.extend_from_slice(&[Op::PathCurve(false), Op::PathCurve(true), Op::PathBorrowed, Op::ClearCache]);
+    v.extend_from_slice(&[Op::CopyFrom(1 % npool, false, true), Op::CopyFrom(2 % npool, true, true), Op::CopyFrom(3 % npool, false, false)]);
     v
 }
 
